@@ -24,15 +24,17 @@ import WtfModel.Gen.Lru
                              monitor (nil vs empty, 0.0 vs -0.0, invalid UTF-8 vs U+FFFD); ASSUMED in Lean.
     `EngineNormalises E`     the engine replaces the query by normQ(query) before any use.  Justified by the
                              regenerated fact `engineNormalisesQuery` (theorem `code_shape`); ASSUMED in Lean.
-    `FiniteOpts o`           no NaN / ±Inf among the request's floats.  Without it the statement is FALSE for
-                             the code as it is: see `nan_fallback_breaks_transparency`.
+  No finiteness hypothesis: a request with NaN / ±Inf floats (json.Marshal fails) is keyed by the Go-syntax
+  text of the same struct, which carries every field; `EngineReadsOnly` then also says that the engine treats
+  all NaNs alike (`b > 0` is false for each of them).  The Marshal-error branch used to keep only query and
+  limit: `old_fallback_breaks_transparency` shows what that did.
 -/
 namespace Wtf.C05
 open Wtf Wtf.CacheLayer
 
 /-- the conversion literal of SearchWithOptionsAndCache / of convertToCacheOptions, with the key struct -/
-def shC : Shape := ⟨Gen.CacheKey.keyFields, Gen.CacheKey.convCached, Gen.CacheKey.fallbackFields⟩
-def shM : Shape := ⟨Gen.CacheKey.keyFields, Gen.CacheKey.convMonitored, Gen.CacheKey.fallbackFields⟩
+def shC : Shape := ⟨Gen.CacheKey.keyFields, Gen.CacheKey.convCached⟩
+def shM : Shape := ⟨Gen.CacheKey.keyFields, Gen.CacheKey.convMonitored⟩
 abbrev reads : List String := Gen.CacheKey.engineReads
 
 /-- NewCachedDatabase(db) / NewMonitoredDatabase(db) -/
@@ -58,11 +60,13 @@ private theorem coversM : covers shM reads = true := by decide
 /-- The code-shape facts the model's control flow mirrors (regenerated): the engine and the key normalise
     the query with the same expression; UpdateDatabase clears the LRU after replacing the commands; Put uses
     the very (query, cacheOptions) of the Get and stores the engine's answer for the request's own
-    (query, options), only when non-empty; the monitored search is one extra Get plus the cached search. -/
+    (query, options), only when non-empty; the monitored search is one extra Get plus the cached search;
+    on a Marshal error the whole key struct is hashed in Go syntax. -/
 theorem code_shape :
     Gen.CacheKey.engineNormalisesQuery = true ∧ Gen.CacheKey.keyNormalisesQuery = true ∧
     Gen.CacheKey.updateInvalidates = true ∧ Gen.CacheKey.putMatchesGet = true ∧
-    Gen.CacheKey.putOnlyNonEmpty = true ∧ Gen.CacheKey.monitoredDelegates = true := by
+    Gen.CacheKey.putOnlyNonEmpty = true ∧ Gen.CacheKey.monitoredDelegates = true ∧
+    Gen.CacheKey.fallbackMode = "gosyntax-all-fields" := by
   decide
 
 omit [DecidableEq κ] in
@@ -80,7 +84,7 @@ theorem query_norm_sound (E : Env Db Ans κ) (hn : EngineNormalises E) (db : Db)
     (h : E.normQ q = E.normQ q') : E.answer db q o = E.answer db q' o := by
   rw [hn db q o, h, ← hn db q' o]
 
-/-- A request with finite floats gets a proper (hashed) key at both sites. -/
+/-- A request with finite floats is keyed by the JSON text at both sites. -/
 theorem finite_marshalOK (o : Opts) (h : FiniteOpts o) : marshalOK shC o = true ∧ marshalOK shM o = true := by
   have z : ∀ t, (zeroOf t).marshalOK = true := by
     intro t; unfold zeroOf
@@ -98,11 +102,11 @@ theorem finite_marshalOK (o : Opts) (h : FiniteOpts o) : marshalOK shC o = true 
     different answers (on any database) ⇒ different real key strings. -/
 theorem no_sharing (E : Env Db Ans κ) (hinj : ∀ a b, E.enc a = E.enc b → a = b)
     (hr : EngineReadsOnly E reads) (hn : EngineNormalises E)
-    (db : Db) (q q' : Query) (o o' : Opts) (hfin : FiniteOpts o)
+    (db : Db) (q q' : Query) (o o' : Opts)
     (hdiff : E.answer db q o ≠ E.answer db q' o') :
     E.enc (keyOf E shC q o) ≠ E.enc (keyOf E shC q' o') := by
   intro hk
-  exact hdiff (key_sound coversC hr hn (finite_marshalOK o hfin).1 (hinj _ _ hk) db)
+  exact hdiff (key_sound coversC hr hn (hinj _ _ hk) db)
 
 /-- Invariant of every reachable state: each cached pair is (key of some request, the engine's answer to
     that request on the database now in force). -/
@@ -118,31 +122,29 @@ theorem inv (E : Env Db Ans κ) (db0 : Db) (hist : List (Op Db)) :
   rw [final_db]
   rfl
 
-/-- MAIN THEOREM.  In any history, the i-th operation being a search or a monitored search for (q, o) with
-    finite floats, its output is exactly the engine's answer to (q, o) on the database in force at that
+/-- MAIN THEOREM.  In any history, the i-th operation being a search or a monitored search for (q, o) -- any
+    options, NaN and ±Inf included -- its output is exactly the engine's answer to (q, o) on the database in force at that
     moment (the initial one, or the argument of the latest `update` among the first i operations) --
     whatever was searched, invalidated, switched, swept, replaced or how much time passed before. -/
 theorem transparent (E : Env Db Ans κ) (hinj : ∀ a b, E.enc a = E.enc b → a = b)
     (hr : EngineReadsOnly E reads) (hn : EngineNormalises E)
     (db0 : Db) (hist : List (Op Db)) (i : Nat) (q : Query) (o : Opts)
-    (hop : hist[i]? = some (.search q o) ∨ hist[i]? = some (.monitoredSearch q o))
-    (hfin : FiniteOpts o) :
+    (hop : hist[i]? = some (.search q o) ∨ hist[i]? = some (.monitoredSearch q o)) :
     (run E shC shM (init0 db0 : State κ Db Ans) hist).2[i]? =
       some (.ans (E.answer (dbAfter db0 (hist.take i)) q o)) := by
   have hi : Inv E shC (final E shC shM (init0 db0 : State κ Db Ans) (hist.take i)) :=
     run_inv (init_inv E shC _ _ _ db0) _
   have hdb := final_db E shC shM (init0 db0 : State κ Db Ans) (hist.take i)
-  have hm := (finite_marshalOK o hfin).1
   cases hop with
   | inl hop =>
     rw [run_out E shC shM _ hist i _ hop]
     simp only [step]
-    rw [search_spec hinj coversC hr hn hi q o hm, hdb]
+    rw [search_spec hinj coversC hr hn hi q o, hdb]
     rfl
   | inr hop =>
     rw [run_out E shC shM _ hist i _ hop]
     simp only [step]
-    rw [monitoredSearch_spec hinj coversC hr hn hi q o hm, hdb]
+    rw [monitoredSearch_spec hinj coversC hr hn hi q o, hdb]
     rfl
 
 /-- A database replacement empties the cache, whatever the switches say; the new commands are in force. -/
@@ -156,7 +158,7 @@ theorem disabled_bypasses (E : Env Db Ans κ) (s : State κ Db Ans) (q : Query) 
     (hm : s.mgrEnabled = false) :
     search E shC s q o = (s, E.answer s.db q o) ∧
     (s.cacheEnabled = false → monitoredSearch E shC shM s q o = (s, E.answer s.db q o)) := by
-  have h1 : search E shC s q o = (s, E.answer s.db q o) := by simp [search, hm]
+  have h1 : search E shC s q o = (s, E.answer s.db q o) := by simp [search, searchK, hm]
   refine ⟨h1, ?_⟩
   intro hc
   simp [monitoredSearch, scGet, hc, h1]
@@ -166,13 +168,14 @@ theorem switches_agree (E : Env Db Ans κ) (db0 : Db) (hist : List (Op Db)) :
     (final E shC shM (init0 db0 : State κ Db Ans) hist).cacheEnabled :=
   final_flags E shC shM _ hist rfl
 
-/-! ### The Marshal-error fallback: `transparent` without `FiniteOpts` is false for the code as it is.
+/-! ### The Marshal-error branch before its repair (kept so that the reason for the repair stays checkable).
 
-  A NaN (or ±Inf) among the floats makes json.Marshal fail; generateCacheKey then returns
-  "search:" ++ query ++ ":" ++ limit, which drops every other option.  Witness (engine: "1 if PipelineOnly
-  else 2", which satisfies both engine hypotheses; keys injective): after
-  search(q, {ContextBoosts:{x:NaN}, PipelineOnly:true}) the request (q, {ContextBoosts:{x:NaN}}) is served the
-  pipeline-only answer. -/
+  A NaN (or ±Inf) among the floats makes json.Marshal fail; generateCacheKey used to return
+  "search:" ++ query ++ ":" ++ limit then (`keyOfOldFallback … ["Limit"]`), dropping every other option.
+  Witness (engine: "1 if PipelineOnly else 2", which satisfies both engine hypotheses; keys injective): the
+  requests (q, {ContextBoosts:{x:NaN}, PipelineOnly:true}) and (q, {ContextBoosts:{x:NaN}}) have different
+  answers but got the same old key, so the second was served the first one's answer; under the present
+  `keyOf` their keys differ and the same two-step history is answered correctly. -/
 
 private def wE : Env Unit Nat KeyData :=
   { answer := fun _ _ o => if (o "PipelineOnly").isEmpty then 2 else 1,
@@ -181,17 +184,25 @@ private def nanBits : Nat := 0x7ff8000000000001
 private def oNaN : Opts := (zeroOpts Gen.CacheKey.optionFields).set "ContextBoosts" (.boosts (some [([120], nanBits)]))
 private def oNaNPipe : Opts := oNaN.set "PipelineOnly" (.bool true)
 
-theorem nan_fallback_breaks_transparency :
+theorem old_fallback_breaks_transparency :
     ∃ (E : Env Unit Nat KeyData) (q : Query) (o₁ o₂ : Opts),
       (∀ a b, E.enc a = E.enc b → a = b) ∧ EngineReadsOnly E reads ∧ EngineNormalises E ∧
-      (run E shC shM (init0 ()) [.search q o₁, .search q o₂]).2[1]? ≠ some (.ans (E.answer () q o₂)) := by
-  refine ⟨wE, [100], oNaNPipe, oNaN, fun _ _ h => h, ?_, fun _ _ _ => rfl, by decide⟩
+      -- different answers, one old key ...
+      E.answer () q o₁ ≠ E.answer () q o₂ ∧
+      keyOfOldFallback E shC ["Limit"] q o₁ = keyOfOldFallback E shC ["Limit"] q o₂ ∧
+      -- ... so the cached search keyed that way returned the wrong answer in a two-step history ...
+      (searchK E (searchK E (init0 ()) (E.enc (keyOfOldFallback E shC ["Limit"] q o₁)) q o₁).1
+          (E.enc (keyOfOldFallback E shC ["Limit"] q o₂)) q o₂).2 ≠ E.answer () q o₂ ∧
+      -- ... whereas the present key separates the two requests
+      keyOf E shC q o₁ ≠ keyOf E shC q o₂ := by
+  refine ⟨wE, [100], oNaNPipe, oNaN, fun _ _ h => h, ?_, fun _ _ _ => rfl, by decide, by decide, by decide, by decide⟩
   intro db q o o' h
   have hp : Equiv id (o "PipelineOnly") (o' "PipelineOnly") := h "PipelineOnly" (by decide)
   have he : (o "PipelineOnly").isEmpty = (o' "PipelineOnly").isEmpty := by
-    cases hp with
-    | inl hj => rw [Val.json_id, Val.json_id] at hj; rw [hj]
-    | inr hb => rw [hb.1, hb.2]
+    rcases hp with hj | hb | hg
+    · rw [Val.json_id, Val.json_id] at hj; rw [hj]
+    · rw [hb.1, hb.2]
+    · exact isEmpty_of_goView hg
   simp [wE, he]
 
 /-! ### Non-vacuity: hypotheses are satisfiable, and hits really happen. -/
@@ -210,6 +221,10 @@ example : (run wE shC shM (init0 ()) [.search [100] o5, .update (), .search [100
 example : (run wE shC shM (init0 ()) [.search [100] o5, .enable false, .search [100] o5, .monitoredSearch [100] o5]).1.lru.hits = 0 := by decide
 example : (run wE shC shM (init0 ()) [.search [100] o5, .advance 300000000001, .search [100] o5]).1.lru.hits = 0 := by decide
 example : (run wE shC shM (init0 ()) [.search [100] o5, .advance 300000000000, .monitoredSearch [100] o5]).1.lru.hits = 2 := by decide
+-- NaN requests: repeats hit, a differing option is a different entry, NaN payloads are merged
+example : let r := run wE shC shM (init0 ()) [.search [100] oNaNPipe, .search [100] oNaN, .search [100] oNaN,
+      .search [100] (oNaN.set "ContextBoosts" (.boosts (some [([120], 0xfff8000000000002)])))]
+    r.2 = [.ans 1, .ans 2, .ans 2, .ans 2] ∧ r.1.lru.hits = 2 ∧ r.1.lru.entries.length = 2 := by decide
 example : FiniteOpts o5 := by
   intro f; unfold o5 Opts.set zeroOpts
   split
